@@ -22,9 +22,13 @@ theorem lstep_cases {c c' : Core} {e : LEv} (h : lstep c e = some c') :
     (e = .cSock ∧ c.closer = .sock ∧ c' = { c with sockClosed := true, closer := .hook }) ∨
     (e = .cHook ∧ c.closer = .hook ∧ c' = { c with discCnt := c.discCnt + 1, closer := .idle }) ∨
     (e = .eof ∧ c' = { c with eof := true }) ∨
-    (e = .rdMsg ∧ c.reader = .loop ∧ goonRead c.st = true ∧ c' = { c with handlers := c.handlers + 1 }) ∨
-    (e = .rdMsg ∧ c.reader = .loop ∧ goonRead c.st = false ∧ c' = { c with reader := .disc0 }) ∨
-    (e = .rdExit ∧ c.reader = .loop ∧ c' = { c with reader := .disc0 }) ∨
+    (e = .rdTop ∧ c.reader = .loop ∧ goonRead c.st = true ∧ c' = { c with reader := .reading }) ∨
+    (e = .rdTop ∧ c.reader = .loop ∧ goonRead c.st = false ∧ c' = { c with reader := .disc0 }) ∨
+    (e = .rdMsg ∧ c.reader = .reading ∧ c.sockClosed = false ∧ c' = { c with reader := .got, late := c.st.isClosed }) ∨
+    (e = .rdChk ∧ c.reader = .got ∧ goonRead c.st = false ∧ c' = { c with reader := .disc0 }) ∨
+    (e = .rdChk ∧ c.reader = .got ∧ goonRead c.st = true ∧ c' = { c with reader := .add }) ∨
+    (e = .rdAdd ∧ c.reader = .add ∧ c' = { c with handlers := c.handlers + 1, lateH := c.lateH + (if c.late then 1 else 0), reader := .loop }) ∨
+    (e = .rdExit ∧ c.reader = .reading ∧ c' = { c with reader := .disc0 }) ∨
     (e = .dLoad ∧ c.reader = .disc0 ∧ c' = { c with rst := c.st, reader := .loaded }) ∨
     (e = .dStore ∧ c.reader = .loaded ∧ (c.rst = .passiveClosed ∨ c.rst = .activeClosed ∨ c.rst = .passiveClosing) ∧ c' = { c with reader := .done }) ∨
     (e = .dStore ∧ c.reader = .loaded ∧ c.rst = .activeClosing ∧ c' = { c with reader := .hubdel }) ∨
@@ -35,7 +39,7 @@ theorem lstep_cases {c c' : Core} {e : LEv} (h : lstep c e = some c') :
     (e = .dClosed ∧ c.reader = .closed ∧ c' = { c.store .passiveClosed with reader := .notify }) ∨
     (e = .dNotify ∧ c.reader = .notify ∧ c' = { c.notify with reader := .hook }) ∨
     (e = .dHook ∧ c.reader = .hook ∧ c' = { c with discCnt := c.discCnt + 1, reader := .done }) := by
-  cases e <;> simp only [lstep] at h
+  cases e <;> simp only [lstep, lstepV] at h
   case closeCall =>
     split at h
     · split at h <;> simp_all
@@ -45,7 +49,11 @@ theorem lstep_cases {c c' : Core} {e : LEv} (h : lstep c e = some c') :
     · split at h <;> simp_all
     · simp at h
   case eof => simp_all
-  case rdMsg =>
+  case rdTop =>
+    split at h
+    · split at h <;> simp_all
+    · simp at h
+  case rdChk =>
     split at h
     · split at h <;> simp_all
     · simp at h
@@ -56,9 +64,9 @@ theorem lstep_cases {c c' : Core} {e : LEv} (h : lstep c e = some c') :
   all_goals (split at h <;> simp_all <;> done)
 
 
-/-- split a step into the 27 guarded assignments of `lstep_cases`. -/
+/-- split a step into the 31 guarded assignments of `lstep_cases`. -/
 macro "lstep_split" h:ident : tactic =>
-  `(tactic| (have hsplit := lstep_cases $h:ident; clear $h:ident; rcases hsplit with $h:ident | $h:ident | $h:ident | $h:ident | $h:ident | $h:ident | $h:ident | $h:ident | $h:ident | $h:ident | $h:ident | $h:ident | $h:ident | $h:ident | $h:ident | $h:ident | $h:ident | $h:ident | $h:ident | $h:ident | $h:ident | $h:ident | $h:ident | $h:ident | $h:ident | $h:ident | $h:ident))
+  `(tactic| (have hsplit := lstep_cases $h:ident; clear $h:ident; rcases hsplit with $h:ident | $h:ident | $h:ident | $h:ident | $h:ident | $h:ident | $h:ident | $h:ident | $h:ident | $h:ident | $h:ident | $h:ident | $h:ident | $h:ident | $h:ident | $h:ident | $h:ident | $h:ident | $h:ident | $h:ident | $h:ident | $h:ident | $h:ident | $h:ident | $h:ident | $h:ident | $h:ident | $h:ident | $h:ident | $h:ident | $h:ident))
 
 /-- invariant of every schedule. -/
 structure SInv (c : Core) : Prop where
@@ -91,7 +99,8 @@ theorem sinv_step {c c' : Core} {e : LEv} (h : lstep c e = some c') (hi : SInv c
 
 /-- the reader's position is compatible with an active close being in charge. -/
 def RA (c : Core) : Prop :=
-  c.reader = .idle ∨ c.reader = .loop ∨ c.reader = .disc0 ∨ c.reader = .done ∨
+  c.reader = .idle ∨ c.reader = .loop ∨ c.reader = .reading ∨ c.reader = .got ∨ c.reader = .add ∨
+  c.reader = .disc0 ∨ c.reader = .done ∨
   (c.reader = .loaded ∧ (c.rst = .ok ∨ c.rst = .activeClosing ∨ c.rst = .activeClosed)) ∨
   (c.reader = .hubdel ∧ c.rst = .activeClosing)
 
@@ -101,7 +110,8 @@ def RInv (c : Core) : Prop :=
   match c.st with
   | .preparing => c.closer = .idle ∧ c.reader = .idle ∧ c.discCnt = 0 ∧ c.ph ≠ .running
   | .ok => c.closer = .idle ∧ c.discCnt = 0 ∧ c.ph = .running ∧
-      (c.reader = .idle ∨ c.reader = .loop ∨ c.reader = .disc0 ∨ (c.reader = .loaded ∧ c.rst = .ok))
+      (c.reader = .idle ∨ c.reader = .loop ∨ c.reader = .reading ∨ c.reader = .got ∨ c.reader = .add ∨
+        c.reader = .disc0 ∨ (c.reader = .loaded ∧ c.rst = .ok))
   | .activeClosing =>
       (c.closer = .hubdel ∨ c.closer = .notify ∨ c.closer = .callwait ∨ c.closer = .store) ∧
       c.discCnt = 0 ∧ RA c
@@ -131,10 +141,41 @@ theorem rinv_step {c c' : Core} {e : LEv} (h : lstep c e = some c')
     | obtain ⟨rfl, g1, rfl⟩ := h
     | obtain ⟨rfl, rfl⟩ := h)
   all_goals (
-    obtain ⟨ph, st, closer, reader, rst, dn, nc, dc, sc, eof, hd, lf⟩ := c
+    obtain ⟨ph, st, closer, reader, rst, dn, nc, dc, sc, eof, hd, lf, lt, lh⟩ := c
     cases st <;> cases dn <;> simp_all [RInv, RA, Core.store, Core.notify, Status.isClosed] <;>
       (try (cases ph <;> simp_all <;> done)) <;> (try (cases reader <;> simp_all <;> done)))
 
+
+/-- invariant of every schedule of the read loop as coded (with the second `goonRead` test): a
+    frame that arrived when the status was already ActiveClosed / PassiveClosed is still in a closed
+    status when it is tested, so it never gets past the test and no handler is started for it. -/
+structure HInv (c : Core) : Prop where
+  lateH : c.lateH = 0
+  gotLate : c.reader = .got → c.late = true → c.st.isClosed = true
+  addFresh : c.reader = .add → c.late = false
+
+theorem hinv_init : HInv Core.init := by
+  constructor <;> simp [Core.init]
+
+theorem hinv_step {c c' : Core} {e : LEv} (h : lstep c e = some c')
+    (hr : RInv c) (hi : HInv c) : HInv c' := by
+  obtain ⟨i1, i2, i3⟩ := hi
+  lstep_split h
+  all_goals (
+    first
+    | obtain ⟨rfl, g1, g2, g3, g4, rfl⟩ := h
+    | obtain ⟨rfl, g1, g2, g3, rfl⟩ := h
+    | obtain ⟨rfl, g1, g2, rfl⟩ := h
+    | obtain ⟨rfl, g1, rfl⟩ := h
+    | obtain ⟨rfl, rfl⟩ := h)
+  -- steps that touch neither the status nor the reader's frame
+  all_goals (try (constructor <;> simp_all [Core.notify] <;> (try split) <;> simp_all <;> done))
+  -- the status stores and the reader's own steps
+  all_goals (
+    obtain ⟨ph, st, closer, reader, rst, dn, nc, dc, sc, eof, hd, lf, lt, lh⟩ := c
+    cases st <;> cases lt <;>
+      simp_all [RInv, RA, Core.store, Status.isClosed, goonRead] <;>
+      (try (constructor <;> simp_all [Status.isClosed] <;> done)))
 
 /-! ### closures -/
 
@@ -147,6 +188,33 @@ theorem lreach_rinv {a c : Core} (r : LReach a c) (hs : SInv a) (hi : RInv a) : 
   induction r with
   | refl => exact hi
   | step e r h ih => exact rinv_step h (lreach_sinv r hs) ih
+
+theorem lreach_hinv {a c : Core} (r : LReach a c) (hs : SInv a) (hr : RInv a) (hi : HInv a) : HInv c := by
+  induction r with
+  | refl => exact hi
+  | step e r h ih => exact hinv_step h (lreach_rinv r hs hr) ih
+
+/-- `LReachV true` is `LReach`. -/
+theorem lreach_of_v {a c : Core} (r : LReachV true a c) : LReach a c := by
+  induction r with
+  | refl => exact .refl _
+  | step e _ h ih => exact .step e ih h
+
+/-- a run is a path of the closure. -/
+theorem lreachV_of_run {rc : Bool} {es : List LEv} {a b : Core} (h : lrunV rc a es = some b) : LReachV rc a b := by
+  have aux : ∀ (es : List LEv) (x : Core), LReachV rc a x → lrunV rc x es = some b → LReachV rc a b := by
+    intro es
+    induction es with
+    | nil => intro x r hx; simp only [lrunV, Option.some.injEq] at hx; subst hx; exact r
+    | cons e es ih =>
+      intro x r hx
+      simp only [lrunV] at hx
+      cases hs : lstepV rc x e with
+      | none => simp [hs] at hx
+      | some y =>
+        simp only [hs, Option.bind_some] at hx
+        exact ih y (.step e r hs) hx
+  exact aux es a (.refl a) h
 
 /-! ## any number of sessions: every world step is, for each session, a chain of `lstep`s -/
 
@@ -267,7 +335,7 @@ theorem sess_reach {w : World} (r : Reach World.empty w) {s : Sess} (hs : s ∈ 
 theorem rinv_disc {c : Core} (hi : RInv c) :
     c.discCnt ≤ 1 ∧ ((c.st = .ok ∨ c.st = .preparing) → c.discCnt = 0) ∧
     (c.st.isClosed = true → c.quiet = true → c.discCnt = 1) := by
-  obtain ⟨ph, st, closer, reader, rst, dn, nc, dc, sc, eof, hd, lf⟩ := c
+  obtain ⟨ph, st, closer, reader, rst, dn, nc, dc, sc, eof, hd, lf, lt, lh⟩ := c
   cases st <;> simp_all [RInv, Core.quiet, Status.isClosed]
   · obtain ⟨_, h | h, _⟩ := hi
     · exact ⟨by omega, fun hc _ => by rcases h.1 with e | e <;> rw [e] at hc <;> cases hc⟩
@@ -290,7 +358,7 @@ theorem left_sound {c c' : Core} {e : LEv} (h : lstep c e = some c') (hc : c.st.
     | obtain ⟨rfl, g1, rfl⟩ := h
     | obtain ⟨rfl, rfl⟩ := h)
   all_goals (
-    obtain ⟨ph, st, closer, reader, rst, dn, nc, dc, sc, eof, hd, lf⟩ := c
+    obtain ⟨ph, st, closer, reader, rst, dn, nc, dc, sc, eof, hd, lf, lt, lh⟩ := c
     cases st <;> simp_all [Core.store, Core.notify, Status.isClosed] <;> (try (split at hne <;> simp_all)))
 
 /-- the ghost never resets. -/
